@@ -599,7 +599,7 @@ func C18(c *core.Ctx) {
 	if c.Thorough() {
 		dev = 2
 	}
-	c.Rep.Bound = fmt.Sprintf("SCHED under ThreadSanitizer: seven scenarios of concurrent connection handling, fan-out, retained updates, subscription churn, teardown and Server.Close (2-3 connections, in-process Publish), default-schedule set-up, then every schedule deviating from the default at <= %d points; the scheduler's own hand-offs are hidden from the race detector, the shims reproduce the happens-before edges of the real sync primitives", dev)
+	c.Rep.Bound = fmt.Sprintf("SCHED under ThreadSanitizer: %d scenarios of concurrent connection handling, handshakes with one client id, fan-out, retained updates, subscription churn, teardown, Server.Close, in-process Publish/Subscribe and the client role (2-4 connections; two Clients of one process), default-schedule set-up, then every schedule deviating from the default at <= %d points (selected small scenarios one more); the scheduler's own hand-offs are hidden from the race detector, the shims reproduce the happens-before edges of the real sync primitives", len(raceScenarios()), dev)
 	c.Rep.Rule = "oracle: after every execution the race detector's error count must not have grown; a report counts when both racing accesses are in the repository's packages (not in the runtime shims or the harness); distinct = distinct happens-before states"
 	rl := newRaceLog()
 	known := map[string]int{}
